@@ -252,8 +252,8 @@ theorem invert_is_chain (tgt : Nat) (t : T) (hint : ∀ n ∈ t.nodes, n.id = tg
 /-- **re-seeding keeps the leaves, the total length and every leaf-to-leaf path length** — for every tree whose seed is
     not unary, every internal target node (the documented domain of `reseed_at`), every rooting flag; lengths are exact
     rationals, `None` counting as 0.  Stated for `reseed_at(..., collapse_unrooted_basal_bifurcation=False,
-    suppress_unifurcations=False)`, i.e. for the inversion chain itself; the clean-up steps are covered by
-    `collapse_basal_*` / `suppress_*` below. -/
+    suppress_unifurcations=False)`, i.e. for the inversion chain itself (no well-formedness or distinct-id hypothesis needed
+    for leaves and total).  ALL flag settings, the library defaults included: `reseed_invariant_full` at the end of this file. -/
 theorem reseed_invariant (flag : Option Bool) (tgt : Nat) (t : T)
     (hint : ∀ n ∈ t.nodes, n.id = tgt → n.cs ≠ []) (h2 : 2 ≤ t.cs.length) :
     ((reseedAt flag false false tgt t).1).leaves.Perm t.leaves ∧
@@ -276,7 +276,9 @@ theorem reroot_at_node_invariant (tgt : Nat) (t : T)
 
 /-! ## (e) rooting flag -/
 
-/-- hard re-rooting sets the flag -/
+/-- hard re-rooting sets the flag.  (This one and the next two are definitional: the model functions end in `some true`,
+    as the library methods end in `self.is_rooted = True`; what ties them to the code is the per-case comparison of the flag.
+    The soft-operation theorems below have content: the flag survives the clean-up, which does assign `is_rooted`.) -/
 theorem reroot_at_node_sets_rooted (s : Bool) (tgt : Nat) (t : T) : (rerootAtNode s tgt t).2 = some true := rfl
 
 theorem reroot_at_edge_sets_rooted (s : Bool) (h nw : Nat) (l1 l2 : Option Frac) (t : T) :
@@ -648,5 +650,622 @@ theorem inversion_step_keeps_unrooted_splits_partial {t u : T} (h : Step t u) (l
     rw [toH_node_ne h1, toH_node_ne h2]
     simp only [toHL_append, T.toHL, toH_node_ne hds, toH_node_ne hrest]
     exact Hier.usplits_invert lo (T.toHL pre) (T.toHL ds) (T.toHL post) hg hlo hsingle hne
+
+end DendroModel.C07
+
+namespace DendroModel.C07.Aux
+open DendroModel DendroModel.C07 DendroModel.C07.Path
+
+/-! ### more about `down`/`dist` on length-labelled trees -/
+
+mutual
+theorem dist_none_left : ∀ (t : LT) (a b : Nat), down t a = none → Path.dist t a b = none
+  | .leaf _ _, _, _, _ => rfl
+  | .node l cs, a, b, h => by
+      simp only [down, Option.map_eq_none_iff] at h
+      simp only [Path.dist]
+      exact distL_none_left cs a b h
+theorem distL_none_left : ∀ (cs : List LT) (a b : Nat), downL cs a = none → distL cs a b = none
+  | [], _, _, _ => rfl
+  | c :: cs, a, b, h => by
+      simp only [downL] at h
+      cases hda : down c a with
+      | some d => simp [hda] at h
+      | none =>
+        simp only [hda] at h
+        simp only [distL, hda]
+        cases down c b with
+        | some y => simp [h]
+        | none => exact distL_none_left cs a b h
+end
+
+mutual
+theorem dist_none_right : ∀ (t : LT) (a b : Nat), down t b = none → Path.dist t a b = none
+  | .leaf _ _, _, _, _ => rfl
+  | .node l cs, a, b, h => by
+      simp only [down, Option.map_eq_none_iff] at h
+      simp only [Path.dist]
+      exact distL_none_right cs a b h
+theorem distL_none_right : ∀ (cs : List LT) (a b : Nat), downL cs b = none → distL cs a b = none
+  | [], _, _, _ => rfl
+  | c :: cs, a, b, h => by
+      simp only [downL] at h
+      cases hdb : down c b with
+      | some d => simp [hdb] at h
+      | none =>
+        simp only [hdb] at h
+        simp only [distL, hdb]
+        cases down c a with
+        | some x => simp [h]
+        | none => exact distL_none_right cs a b h
+end
+
+theorem distL_single (x : LT) (a b : Nat) : distL [x] a b = Path.dist x a b := by
+  simp only [distL]
+  cases hda : down x a with
+  | none =>
+    rw [dist_none_left x a b hda]
+    cases down x b <;> simp [downL]
+  | some d =>
+    cases hdb : down x b with
+    | none => rw [dist_none_right x a b hdb]; simp [downL]
+    | some e => rfl
+
+theorem downL_single (x : LT) (a : Nat) : downL [x] a = down x a := by
+  simp only [downL]; cases down x a <;> rfl
+
+/-! ### changing the length of a node's own edge -/
+
+theorem down_withLen (c : T) (m : Option Frac) (a : Nat) :
+    down (toLT (c.withLen m)) a = (down (toLT c) a).map (· + (lenQ m - lenQ c.len)) := by
+  cases c with
+  | node i x l s cs =>
+    cases cs with
+    | nil =>
+      simp only [T.withLen, toLT, down, T.len]
+      split <;> simp
+    | cons d ds =>
+      simp only [T.withLen, toLT, down, T.len, Option.map_map]
+      congr 1; funext z; simp
+
+theorem dist_withLen (c : T) (m : Option Frac) (a b : Nat) : Path.dist (toLT (c.withLen m)) a b = Path.dist (toLT c) a b := by
+  cases c with
+  | node i x l s cs => cases cs <;> simp [T.withLen, toLT, Path.dist]
+
+theorem leaves_withLen (c : T) (m : Option Frac) : leaves (toLT (c.withLen m)) = leaves (toLT c) := by
+  cases c with
+  | node i x l s cs => cases cs <;> simp [T.withLen, toLT, leaves]
+
+theorem totalQ_withLen (c : T) (m : Option Frac) : totalQ (c.withLen m) = totalQ c - lenQ c.len + lenQ m := by
+  cases c with
+  | node i x l s cs => simp [T.withLen, totalQ, T.len]; ring
+
+/-- every edge length stored in the tree is a well-formed fraction (non-zero denominator): what the protocol parser and
+    every `Frac` operation produce -/
+def LenWF (t : T) : Prop := ∀ n ∈ t.nodes, ∀ f, n.len = some f → f.den ≠ 0
+
+def OWF (l : Option Frac) : Prop := ∀ f, l = some f → f.den ≠ 0
+
+theorem lenQ_merge {a b : Option Frac} (ha : OWF a) (hb : OWF b) : lenQ (mergeLen a b) = lenQ a + lenQ b := by
+  cases b with
+  | none => simp [mergeLen, lenQ]
+  | some y =>
+    cases a with
+    | none => simp [mergeLen, lenQ]
+    | some x =>
+      have := Frac.add_toRat (a := x) (b := y) (ha x rfl) (hb y rfl)
+      simpa [mergeLen, lenQ, Frac.toRat] using this
+
+theorem merge_owf {a b : Option Frac} (ha : OWF a) (hb : OWF b) : OWF (mergeLen a b) := by
+  cases b with
+  | none => simpa [mergeLen] using ha
+  | some y =>
+    cases a with
+    | none => simpa [mergeLen] using hb
+    | some x =>
+      intro f hf
+      simp only [mergeLen, Option.some.injEq] at hf
+      subst hf
+      exact Frac.add_wf x y
+
+theorem supL_length : ∀ cs : List T, (supL cs).length = cs.length
+  | [] => rfl
+  | c :: cs => by simp [supL, supL_length cs]
+
+theorem lenWF_child {i : Nat} {x : Option Nat} {l : Option Frac} {s : Option String} {cs : List T}
+    (h : LenWF (.node i x l s cs)) {c : T} (hc : c ∈ cs) : LenWF c :=
+  fun n hn => h n (by simp only [T.nodes]; exact List.mem_cons_of_mem _ (nodes_sub_of_mem hc n hn))
+
+theorem lenWF_root {i : Nat} {x : Option Nat} {l : Option Frac} {s : Option String} {cs : List T}
+    (h : LenWF (.node i x l s cs)) : OWF l :=
+  fun f hf => h (.node i x l s cs) (mem_nodes_self _) f (by simpa [T.len] using hf)
+
+/-- what unifurcation suppression keeps, node by node -/
+structure SupInv (t r : T) : Prop where
+  down : ∀ a, down (toLT r) a = down (toLT t) a
+  dist : ∀ a b, Path.dist (toLT r) a b = Path.dist (toLT t) a b
+  leaves : leaves (toLT r) = leaves (toLT t)
+  total : totalQ r = totalQ t
+  rootwf : OWF r.len
+
+structure SupInvL (cs rs : List T) : Prop where
+  down : ∀ a, downL (toLTL rs) a = downL (toLTL cs) a
+  dist : ∀ a b, distL (toLTL rs) a b = distL (toLTL cs) a b
+  leaves : leavesL (toLTL rs) = leavesL (toLTL cs)
+  total : totalQL rs = totalQL cs
+
+mutual
+theorem sup_inv : ∀ t : T, LenWF t → SupInv t (sup t)
+  | .node i x l s cs, hwf => by
+    have ihL := supL_inv cs (fun c hc => lenWF_child hwf hc)
+    have hl : OWF l := lenWF_root hwf
+    rw [sup]
+    split
+    · rename_i c hc
+      -- cs = [c0], c = sup c0
+      match cs, hc, ihL, hwf with
+      | [c0], hc, ihL, hwf =>
+        simp only [supL, List.cons.injEq, and_true] at hc
+        have ih := sup_inv c0 (lenWF_child hwf (List.mem_cons_self ..))
+        rw [hc] at ih
+        have hm := lenQ_merge ih.rootwf hl
+        refine ⟨?_, ?_, ?_, ?_, ?_⟩
+        · intro a
+          rw [down_withLen, hm, ih.down]
+          simp only [toLT, toLTL, down, downL_single]
+          congr 1; funext z; ring
+        · intro a b
+          rw [dist_withLen, ih.dist]
+          simp only [toLT, toLTL, Path.dist, distL_single]
+        · rw [leaves_withLen, ih.leaves]
+          simp [toLT, toLTL, Path.leaves, Path.leavesL]
+        · rw [totalQ_withLen, hm, ih.total]
+          simp [totalQ, totalQL]; ring
+        · cases c with
+          | node j y lc sc ds => simpa [T.withLen, T.len] using merge_owf ih.rootwf hl
+      | [], hc, _, _ => simp [supL] at hc
+      | _ :: _ :: _, hc, _, _ => simp [supL] at hc
+    · by_cases h0 : cs = []
+      · subst h0
+        exact ⟨fun _ => rfl, fun _ _ => rfl, rfl, rfl, by simpa [supL, T.len] using hl⟩
+      · have h1 : supL cs ≠ [] := by
+          intro h; have := supL_length cs; rw [h] at this; simp at this
+          exact h0 (List.length_eq_zero_iff.mp this.symm)
+        refine ⟨?_, ?_, ?_, ?_, by simpa [T.len] using hl⟩
+        · intro a; rw [toLT_node_ne h1, toLT_node_ne h0]; simp only [down, ihL.down]
+        · intro a b; rw [toLT_node_ne h1, toLT_node_ne h0]; simp only [Path.dist, ihL.dist]
+        · rw [toLT_node_ne h1, toLT_node_ne h0]; simp only [Path.leaves, ihL.leaves]
+        · simp only [totalQ, ihL.total]
+theorem supL_inv : ∀ cs : List T, (∀ c ∈ cs, LenWF c) → SupInvL cs (supL cs)
+  | [], _ => ⟨fun _ => rfl, fun _ _ => rfl, rfl, rfl⟩
+  | c :: cs, hwf => by
+    have ih := sup_inv c (hwf c (List.mem_cons_self ..))
+    have ihL := supL_inv cs (fun d hd => hwf d (List.mem_cons_of_mem _ hd))
+    refine ⟨?_, ?_, ?_, ?_⟩
+    · intro a; simp only [supL, toLTL, downL, ih.down, ihL.down]
+    · intro a b; simp only [supL, toLTL, distL, ih.down, ih.dist, ihL.down, ihL.dist]
+    · simp only [supL, toLTL, Path.leavesL, ih.leaves, ihL.leaves]
+    · simp only [supL, totalQL, ih.total, ihL.total]
+end
+
+end DendroModel.C07.Aux
+
+namespace DendroModel.C07.Aux
+open DendroModel DendroModel.C07 DendroModel.C07.Path
+
+/-! ### dissolving one of two root children (`collapse_basal_bifurcation`) on length-labelled trees -/
+
+theorem distL_cons (c : LT) (cs : List LT) (a b : Nat) :
+    distL (c :: cs) a b = match down c a, down c b with
+      | some _, some _ => Path.dist c a b
+      | some x, none => (downL cs b).map (x + ·)
+      | none, some y => (downL cs a).map (· + y)
+      | none, none => distL cs a b := by
+  rw [distL]; cases down c a <;> cases down c b <;> rfl
+
+theorem collapse_right_dist (A A' : LT) (lb : ℚ) (bs : List LT)
+    (hdown : ∀ p, down A' p = (down A p).map (· + lb)) (hdist : ∀ p q, Path.dist A' p q = Path.dist A p q) (p q : Nat) :
+    distL (A' :: bs) p q = distL [A, LT.node lb bs] p q := by
+  rw [distL_cons A', distL_cons A, hdown, hdown, hdist, downL_single, downL_single, distL_single]
+  cases hp : down A p <;> cases hq : down A q
+  · simp [Path.dist]
+  · simp only [Option.map_none, Option.map_some, Option.map_map, down]
+    congr 1; funext z; simp; ring
+  · simp only [Option.map_none, Option.map_some, Option.map_map, down]
+    congr 1; funext z; simp; ring
+  · simp
+
+theorem not_mem_of_downL_none {cs : List LT} {a : Nat} (h : downL cs a = none) : a ∉ leavesL cs := by
+  intro hm
+  have := (downL_some_iff cs a).mpr hm
+  simp [h] at this
+
+theorem mem_of_downL_some {cs : List LT} {a : Nat} {x : ℚ} (h : downL cs a = some x) : a ∈ leavesL cs :=
+  (downL_some_iff cs a).mp (by simp [h])
+
+theorem mem_of_down_some {t : LT} {a : Nat} {x : ℚ} (h : down t a = some x) : a ∈ leaves t :=
+  (down_some_iff t a).mp (by simp [h])
+
+theorem collapse_left_dist (as : List LT) (la : ℚ) (B B' : LT)
+    (hdown : ∀ p, down B' p = (down B p).map (· + la)) (hdist : ∀ p q, Path.dist B' p q = Path.dist B p q)
+    (hleaves : leaves B' = leaves B) (hdisj : ∀ z, z ∈ leavesL as → z ∈ leaves B → False) (p q : Nat) :
+    distL (as ++ [B']) p q = distL [LT.node la as, B] p q := by
+  have hL : leavesL [B'] = leaves B := by simp [leavesL, hleaves]
+  cases hp : downL as p with
+  | some x =>
+    cases hq : downL as q with
+    | some y =>
+      rw [distL_front as [B'] p q (mem_of_downL_some hp) (mem_of_downL_some hq)]
+      simp [distL, down, hp, hq, Path.dist]
+    | none =>
+      cases hB : down B q with
+      | some y =>
+        have hB' : downL [B'] q = some (y + la) := by rw [downL_single, hdown, hB]; rfl
+        rw [distL_split as [B'] p q x (y + la) hp hB' (not_mem_of_downL_none hq)
+          (by rw [hL]; exact fun h => hdisj p (mem_of_downL_some hp) h)]
+        simp only [distL, down, hp, hq, Option.map_some, Option.map_none, downL_single, hB]
+        congr 1; ring
+      | none =>
+        have : downL (as ++ [B']) q = none := by rw [downL_append, hq, downL_single, hdown, hB]; rfl
+        rw [distL_none_right _ p q this]
+        simp [distL, down, hp, hq, downL_single, hB]
+  | none =>
+    cases hq : downL as q with
+    | some y =>
+      cases hB : down B p with
+      | some x =>
+        have hB' : downL [B'] p = some (x + la) := by rw [downL_single, hdown, hB]; rfl
+        rw [distL_split' as [B'] p q (x + la) y hq hB' (not_mem_of_downL_none hp)
+          (by rw [hL]; exact fun h => hdisj q (mem_of_downL_some hq) h)]
+        simp only [distL, down, hp, hq, Option.map_some, Option.map_none, downL_single, hB]
+        congr 1; ring
+      | none =>
+        have : downL (as ++ [B']) p = none := by rw [downL_append, hp, downL_single, hdown, hB]; rfl
+        rw [distL_none_left _ p q this]
+        simp [distL, down, hp, hq, downL_single, hB]
+    | none =>
+      rw [distL_back as [B'] p q (not_mem_of_downL_none hp) (not_mem_of_downL_none hq), distL_single, hdist, distL_cons]
+      simp only [down, hp, hq, Option.map_none, distL_single]
+
+end DendroModel.C07.Aux
+
+namespace DendroModel.C07.Aux
+open DendroModel DendroModel.C07 DendroModel.C07.Path
+
+theorem len_node (i : Nat) (x : Option Nat) (l : Option Frac) (s : Option String) (cs : List T) : (T.node i x l s cs).len = l := rfl
+theorem cs_node (i : Nat) (x : Option Nat) (l : Option Frac) (s : Option String) (cs : List T) : (T.node i x l s cs).cs = cs := rfl
+
+theorem nodesL_append (a b : List T) : T.nodesL (a ++ b) = T.nodesL a ++ T.nodesL b := by
+  induction a with
+  | nil => simp [T.nodesL]
+  | cons c cs ih => simp [T.nodesL, ih]
+
+theorem leafIds_eq_LT (t : T) (h : t.cs ≠ []) : leafIds t = leavesL (toLTL t.cs) := by
+  cases t with
+  | node i x l s cs =>
+    simp only [T.cs] at h
+    simp only [leafIds, leaves_node_ne h, T.cs, leavesL_toLTL]
+
+/-- what a clean-up step keeps at the root -/
+structure RootInv (t r : T) : Prop where
+  ids : leafIds r = leafIds t
+  total : totalQ r = totalQ t
+  paths : ∀ a b, pathLen r a b = pathLen t a b
+  wf : LenWF r
+
+theorem step_lenWF {t u : T} (h : Step t u) (hwf : LenWF t) : LenWF u := by
+  cases h with
+  | mk i x l s pre j y lc sc ds post hds hrest =>
+    have hc : T.node j y lc sc ds ∈ T.nodes (.node i x l s (pre ++ T.node j y lc sc ds :: post)) := by
+      simp [T.nodes, nodesL_append, T.nodesL]
+    intro n hn f hf
+    simp only [T.nodes, nodesL_append, T.nodesL, List.append_nil, List.mem_cons, List.mem_append] at hn
+    rcases hn with rfl | hn | rfl | hn | hn
+    · exact hwf _ (mem_nodes_self _) f (by simpa [T.len] using hf)
+    · exact hwf n (by simp [T.nodes, nodesL_append, T.nodesL, hn]) f hf
+    · exact hwf _ hc f (by simpa [T.len] using hf)
+    · exact hwf n (by simp [T.nodes, nodesL_append, T.nodesL, hn]) f hf
+    · exact hwf n (by simp [T.nodes, nodesL_append, T.nodesL, hn]) f hf
+
+theorem reach_lenWF {t r : T} (h : Reach t r) (hwf : LenWF t) : LenWF r := by
+  induction h with
+  | refl _ => exact hwf
+  | step st _ ih => exact ih (step_lenWF st hwf)
+
+theorem collapse_inv (t : T) (hwf : LenWF t) (hnd : (leafIds t).Nodup) : RootInv t (collapseBasal t) := by
+  have triv : RootInv t t := ⟨rfl, rfl, fun _ _ => rfl, hwf⟩
+  cases t with
+  | node i x l s cs =>
+  match cs, hwf, hnd, triv with
+  | [], _, _, triv => simpa [collapseBasal] using triv
+  | [_], _, _, triv => simpa [collapseBasal] using triv
+  | _ :: _ :: _ :: _, _, _, triv => simpa [collapseBasal] using triv
+  | [a, b], hwf, hnd, triv =>
+    have hwa : LenWF a := lenWF_child hwf (by simp)
+    have hwb : LenWF b := lenWF_child hwf (by simp)
+    simp only [collapseBasal]
+    split
+    · -- the second child is dissolved
+      rename_i hb
+      cases b with
+      | node j y lb sb bs =>
+      simp only [cs_node] at hb
+      simp only [cs_node, len_node]
+      have hbs : bs ≠ [] := by intro h; subst h; simp at hb
+      have hm : lenQ (mergeLen a.len lb) = lenQ a.len + lenQ lb :=
+        lenQ_merge (fun f hf => hwa a (mem_nodes_self _) f hf) (lenWF_root hwb)
+      refine ⟨?_, ?_, ?_, ?_⟩
+      · rw [leafIds_eq_LT _ (by simp [T.cs]), leafIds_eq_LT _ (by simp [T.cs])]
+        simp only [T.cs, toLTL, leavesL, leaves_withLen, toLT_node_ne hbs, Path.leaves, List.append_nil]
+      · simp only [totalQ, totalQL, totalQ_withLen, hm]; ring
+      · intro p q
+        simp only [pathLen, cs_node, toLTL, toLT_node_ne hbs]
+        apply collapse_right_dist
+        · intro z; rw [down_withLen, hm]; congr 1; funext w; ring
+        · intro z w; exact dist_withLen _ _ _ _
+      · intro n hn f hf
+        simp only [T.nodes, T.nodesL, List.mem_cons, List.mem_append] at hn
+        rcases hn with rfl | hn | hn
+        · exact hwf _ (mem_nodes_self _) f (by simpa [T.len] using hf)
+        · cases a with
+          | node k z la sa as =>
+            simp only [T.withLen, T.nodes, List.mem_cons] at hn
+            rcases hn with rfl | hn
+            · exact merge_owf (lenWF_root hwa) (lenWF_root hwb) f (by simpa [T.len] using hf)
+            · exact hwa n (by simp [T.nodes, hn]) f hf
+        · exact hwb n (by simp only [T.nodes]; exact List.mem_cons_of_mem _ hn) f hf
+    · split
+      · -- the first child is dissolved
+        rename_i hb ha
+        cases a with
+        | node k z la sa as =>
+        simp only [cs_node] at ha
+        simp only [cs_node, len_node]
+        have has : as ≠ [] := by intro h; subst h; simp at ha
+        have hm : lenQ (mergeLen b.len la) = lenQ b.len + lenQ la :=
+          lenQ_merge (fun f hf => hwb b (mem_nodes_self _) f hf) (lenWF_root hwa)
+        have hdisj : ∀ z, z ∈ leavesL (toLTL as) → z ∈ leaves (toLT b) → False := by
+          intro z h1 h2
+          rw [leafIds_eq_LT _ (by simp [T.cs])] at hnd
+          simp only [T.cs, toLTL, leavesL, toLT_node_ne has, Path.leaves, List.append_nil] at hnd
+          exact (List.nodup_append.mp hnd).2.2 z h1 z h2 rfl
+        refine ⟨?_, ?_, ?_, ?_⟩
+        · rw [leafIds_eq_LT _ (by simp [T.cs]), leafIds_eq_LT _ (by simp [T.cs])]
+          simp only [T.cs, toLTL_append, toLTL, Path.leavesL_append, Path.leavesL, leaves_withLen, toLT_node_ne has, Path.leaves,
+            List.append_nil]
+        · simp only [totalQ, totalQL, totalQL_append, totalQ_withLen, hm]; ring
+        · intro p q
+          simp only [pathLen, cs_node, toLTL_append, toLTL, toLT_node_ne has]
+          apply collapse_left_dist _ _ _ _ _ _ (leaves_withLen _ _) hdisj
+          · intro z; rw [down_withLen, hm]; congr 1; funext w; ring
+          · intro z w; exact dist_withLen _ _ _ _
+        · intro n hn f hf
+          simp only [T.nodes, nodesL_append, T.nodesL, List.mem_cons, List.mem_append, List.append_nil] at hn
+          rcases hn with rfl | hn | hn
+          · exact hwf _ (mem_nodes_self _) f (by simpa [T.len] using hf)
+          · exact hwa n (by simp only [T.nodes]; exact List.mem_cons_of_mem _ hn) f hf
+          · cases b with
+            | node j y lb sb bs =>
+              simp only [T.withLen, T.nodes, List.mem_cons] at hn
+              rcases hn with rfl | hn
+              · exact merge_owf (lenWF_root hwb) (lenWF_root hwa) f (by simpa [T.len] using hf)
+              · exact hwb n (by simp [T.nodes, hn]) f hf
+      · exact triv
+
+
+end DendroModel.C07.Aux
+
+namespace DendroModel.C07.Aux
+open DendroModel DendroModel.C07 DendroModel.C07.Path
+
+mutual
+theorem find_mem (i : Nat) : ∀ (t n : T), T.find? i t = some n → n ∈ t.nodes ∧ n.id = i
+  | .node j x l s cs, n, h => by
+    simp only [T.find?] at h
+    split at h
+    · rename_i hij
+      cases h
+      exact ⟨mem_nodes_self _, by simpa [T.id] using (beq_iff_eq.mp hij).symm⟩
+    · obtain ⟨h1, h2⟩ := findL_mem i cs n h
+      exact ⟨by simp only [T.nodes]; exact List.mem_cons_of_mem _ h1, h2⟩
+theorem findL_mem (i : Nat) : ∀ (cs : List T) (n : T), T.findL? i cs = some n → n ∈ T.nodesL cs ∧ n.id = i
+  | [], _, h => by simp [T.findL?] at h
+  | c :: cs, n, h => by
+    simp only [T.findL?] at h
+    split at h
+    · rename_i r hr
+      cases h
+      obtain ⟨h1, h2⟩ := find_mem i c n hr
+      exact ⟨by simp only [T.nodesL]; exact List.mem_append_left _ h1, h2⟩
+    · obtain ⟨h1, h2⟩ := findL_mem i cs n h
+      exact ⟨by simp only [T.nodesL]; exact List.mem_append_right _ h1, h2⟩
+end
+
+theorem pathLen_eq_dist (t : T) (a b : Nat) : pathLen t a b = Path.dist (toLT t) a b := by
+  cases t with
+  | node i x l s cs => cases cs <;> simp [pathLen, T.cs, toLT, toLTL, Path.dist, distL]
+
+theorem leafIds_eq_leaves (t : T) : leafIds t = leaves (toLT t) := (leaves_toLT t).symm
+
+theorem cleanup_inv (flag : Option Bool) (c s : Bool) (t : T) (hwf : LenWF t) (hnd : (leafIds t).Nodup) :
+    leafIds (cleanup flag c s t).1 = leafIds t ∧ totalQ (cleanup flag c s t).1 = totalQ t ∧
+    ∀ a b, pathLen (cleanup flag c s t).1 a b = pathLen t a b := by
+  have R : RootInv t (if (c && unrootedFlag flag && t.cs.length == 2) = true then collapseBasal t else t) := by
+    split
+    · exact collapse_inv t hwf hnd
+    · exact ⟨rfl, rfl, fun _ _ => rfl, hwf⟩
+  simp only [cleanup]
+  generalize (if (c && unrootedFlag flag && t.cs.length == 2) = true then collapseBasal t else t) = t1 at R ⊢
+  cases s
+  · simp only [Bool.false_eq_true, if_false]
+    exact ⟨R.ids, R.total, R.paths⟩
+  · simp only [if_true]
+    have S := sup_inv t1 R.wf
+    refine ⟨?_, S.total.trans R.total, ?_⟩
+    · rw [leafIds_eq_leaves, S.leaves, ← leafIds_eq_leaves, R.ids]
+    · intro a b; rw [pathLen_eq_dist, S.dist, ← pathLen_eq_dist, R.paths]
+
+end DendroModel.C07.Aux
+
+namespace DendroModel.C07
+open DendroModel DendroModel.C07.Aux
+
+/-- clause (a) for lengths: same leaves (ids), same total length, same length of every leaf-to-leaf path -/
+structure Keeps (t r : T) : Prop where
+  ids : (leafIds r).Perm (leafIds t)
+  total : totalQ r = totalQ t
+  paths : ∀ a b, a ∈ leafIds t → b ∈ leafIds t → pathLen r a b = pathLen t a b
+
+/-- **`reseed_at` keeps the leaves, the total length and every leaf-to-leaf path length for EVERY setting of
+    `collapse_unrooted_basal_bifurcation` and `suppress_unifurcations` (the defaults included) and every rooting flag** —
+    for every tree whose seed has at least two children, every internal target node, distinct leaf ids and well-formed
+    fractions (what the protocol parser produces).  Lengths are exact rationals, `None` counts as 0, merged lengths follow
+    the library's `None` rules.  Leaf targets and unary seeds (outside `reseed_at`'s documented domain / where the old seed
+    itself turns into a tip) are not covered. -/
+theorem reseed_invariant_full (flag : Option Bool) (collapse suppress : Bool) (tgt : Nat) (t : T)
+    (hint : ∀ n ∈ t.nodes, n.id = tgt → n.cs ≠ []) (h2 : 2 ≤ t.cs.length) (hwf : LenWF t) (hnd : (leafIds t).Nodup) :
+    Keeps t (reseedAt flag collapse suppress tgt t).1 := by
+  have hr := invert_is_chain tgt t hint h2
+  obtain ⟨pl, tot, pth⟩ := reach_inv hr
+  have pid : (leafIds (invertTo tgt t)).Perm (leafIds t) := pl.map T.id
+  have C := cleanup_inv flag collapse suppress (invertTo tgt t) (reach_lenWF hr hwf) (pid.nodup_iff.mpr hnd)
+  have e : (reseedAt flag collapse suppress tgt t).1 = (cleanup flag collapse suppress (invertTo tgt t)).1 := by
+    simp only [reseedAt]
+    cases hf : T.find? tgt t with
+    | none => simp
+    | some n =>
+      obtain ⟨h1, h2'⟩ := find_mem tgt t n hf
+      have hne := hint n h1 h2'
+      have : n.cs.isEmpty = false := by
+        cases hcs : n.cs with
+        | nil => exact absurd hcs hne
+        | cons _ _ => rfl
+      simp [this]
+  rw [e]
+  refine ⟨by rw [C.1]; exact pid, C.2.1.trans tot, ?_⟩
+  intro a b ha hb
+  rw [C.2.2, pth hnd a b ha hb]
+
+/-- the hard variant, every `suppress_unifurcations` setting -/
+theorem reroot_at_node_invariant_full (suppress : Bool) (tgt : Nat) (t : T)
+    (hint : ∀ n ∈ t.nodes, n.id = tgt → n.cs ≠ []) (h2 : 2 ≤ t.cs.length) (hwf : LenWF t) (hnd : (leafIds t).Nodup) :
+    Keeps t (rerootAtNode suppress tgt t).1 :=
+  reseed_invariant_full none false suppress tgt t hint h2 hwf hnd
+
+end DendroModel.C07
+
+namespace DendroModel.C07.Aux
+open DendroModel DendroModel.C07
+
+theorem collapseBasal_id (t : T) : (collapseBasal t).id = t.id := by
+  unfold collapseBasal
+  split
+  · split
+    · rfl
+    · split <;> rfl
+  · rfl
+
+end DendroModel.C07.Aux
+
+namespace DendroModel.C07
+open DendroModel DendroModel.C07.Aux
+
+/-- `reseed_at(..., suppress_unifurcations=False)`, any collapse setting and flag: the requested node is the seed afterwards
+    (with suppression a unary new seed is spliced out, so the claim is not made there) -/
+theorem reseed_at_root_is_target (flag : Option Bool) (collapse : Bool) (tgt : Nat) (t : T) (h : contains tgt t = true) :
+    (reseedAt flag collapse false tgt t).1.id = tgt := by
+  have hr := (reseed_root_is_target tgt t h).1
+  simp only [reseedAt, cleanup, Bool.and_false, Bool.false_eq_true, if_false]
+  split
+  · rw [collapseBasal_id]; exact hr
+  · exact hr
+
+/-- soft: `randomly_reorient` (both of its branches, any recorded draws) leaves a defined rooting flag as it was -/
+theorem reorient_keeps_flag (b : Bool) (pick : Nat) (rank : Nat → Nat) (t : T) (r : T × Option Bool)
+    (h : reorient (some b) pick rank t = some r) : r.2 = some b := by
+  unfold reorient at h
+  split at h
+  · cases h
+  · split at h
+    · cases ho : toOutgroup (some b) true pick t with
+      | none => simp [ho] at h
+      | some q =>
+        simp only [ho, Option.map_some, Option.some.injEq] at h
+        subst h
+        exact to_outgroup_keeps_flag b true pick t q ho
+    · simp only [Option.some.injEq] at h
+      subst h
+      exact reseed_keeps_flag b true true pick t
+
+/-- the statements about path lengths are not about `none = none`: on the example tree the path A–C has length 4 and is
+    still 4 after re-seeding at the internal node with the default clean-up -/
+example : pathLen exTree 2 4 = some 4 := by
+  simp [pathLen, exTree, T.cs, toLTL, toLT, Path.distL, Path.down, Path.downL, lenQ]; norm_num
+example : pathLen (reseedAt (some false) true true 1 exTree).1 2 4 = some 4 :=
+  (reseed_invariant_full (some false) true true 1 exTree
+    (by intro n hn; simp [exTree, T.nodes, T.nodesL] at hn; rcases hn with rfl | rfl | rfl | rfl | rfl <;> simp [T.id, T.cs])
+    (by decide)
+    (by intro n hn f hf; simp [exTree, T.nodes, T.nodesL] at hn
+        rcases hn with rfl | rfl | rfl | rfl | rfl <;> simp [T.len] at hf <;> subst hf <;> decide)
+    (by decide)).paths 2 4 (by decide) (by decide) ▸ (by
+      simp [pathLen, exTree, T.cs, toLTL, toLT, Path.distL, Path.down, Path.downL, lenQ]; norm_num)
+
+end DendroModel.C07
+
+namespace DendroModel.C07.Aux
+open DendroModel DendroModel.C07
+
+mutual
+theorem inv_shape (tgt : Nat) : ∀ (t : T) (l : Option Frac) (ups : List T) (r : T), inv tgt t l ups = some r →
+    (t.id = tgt ∧ r.cs = t.cs ++ ups) ∨
+    (∃ n ∈ T.nodesL t.cs, n.id = tgt ∧ ∃ up, r.cs = n.cs ++ [up] ∧ up.len = n.len)
+  | .node i x l0 s cs, l, ups, r, h => by
+      rw [inv] at h
+      split at h
+      · rename_i hi
+        cases h
+        exact Or.inl ⟨by simpa [T.id] using hi, rfl⟩
+      · exact Or.inr (invL_shape tgt cs [] ups i x s l r h)
+theorem invL_shape (tgt : Nat) : ∀ (post pre ups : List T) (i : Nat) (x : Option Nat) (s : Option String)
+    (l : Option Frac) (r : T), invL tgt i x s l pre post ups = some r →
+    ∃ n ∈ T.nodesL post, n.id = tgt ∧ ∃ up, r.cs = n.cs ++ [up] ∧ up.len = n.len
+  | [], _, _, _, _, _, _, _, h => by simp [invL] at h
+  | c :: post, pre, ups, i, x, s, l, r, h => by
+      rw [invL] at h
+      split at h
+      · rename_i r' hr'
+        cases h
+        rcases inv_shape tgt c l _ r hr' with ⟨hid, hcs⟩ | ⟨n, hn, hid, up, hcs, hlen⟩
+        · exact ⟨c, by simp only [T.nodesL]; exact List.mem_append_left _ (mem_nodes_self c), hid, _, hcs, rfl⟩
+        · refine ⟨n, ?_, hid, up, hcs, hlen⟩
+          simp only [T.nodesL]
+          apply List.mem_append_left
+          cases c with
+          | node j y lc sc ds => simp only [T.nodes]; exact List.mem_cons_of_mem _ hn
+      · obtain ⟨n, hn, rest⟩ := invL_shape tgt post (pre ++ [c]) ups i x s l r h
+        exact ⟨n, by simp only [T.nodesL]; exact List.mem_append_right _ hn, rest⟩
+end
+
+end DendroModel.C07.Aux
+
+namespace DendroModel.C07
+open DendroModel DendroModel.C07.Aux
+
+/-- **shape of the new root** after the inversions towards a node other than the seed: its children are the target's own
+    children, in their order and untouched, followed by exactly ONE more child — its old parent, appended last — whose edge
+    carries the target's old edge length (the length swap of `Edge.invert`).  For `reroot_at_edge`, whose target is the
+    inserted node `[head : length2]` with own length `length1`, this reads: the root's children are the head at `length2` and
+    then the old tail at `length1` (clause c before the clean-up; identification of the found node with the inserted one needs
+    the fresh id and is left to the correspondence). -/
+theorem reseed_root_shape (tgt : Nat) (t : T) (hne : t.id ≠ tgt) (h : contains tgt t = true) :
+    ∃ n ∈ T.nodesL t.cs, n.id = tgt ∧ ∃ up, (invertTo tgt t).cs = n.cs ++ [up] ∧ up.len = n.len := by
+  obtain ⟨r, hr⟩ := inv_some tgt t t.len [] h
+  simp only [invertTo, hr, Option.getD_some]
+  rcases inv_shape tgt t t.len [] r hr with ⟨hid, _⟩ | h'
+  · exact absurd hid hne
+  · exact h'
+
+example : ∃ up, (invertTo 1 exTree).cs = [.node 2 (some 0) (some ⟨1, 1⟩) none [], .node 3 (some 1) (some ⟨1, 1⟩) none [], up]
+    ∧ up.len = some ⟨1, 1⟩ := ⟨_, rfl, rfl⟩
 
 end DendroModel.C07
